@@ -46,6 +46,60 @@ def run(idx: Index, rep: Report, tier: str):
     check_combinatorial_spectrum(idx, rep, tier)
     check_hcb_chain(idx, rep, tier)
     check_register_size_reaches_encoder(idx, rep)
+    check_jkmn_tree(idx, rep)
+
+
+def check_jkmn_tree(idx: Index, rep: Report):
+    """The ternary tree behind the JKMN encoding, folded from the repository's own _jkmn_list for heights 1, 2 and 3 (13 nodes: registers of 13 to 39 qubits
+    use all three levels).  Each leaf is a path of (node, letter) pairs; the Pauli strings of two different leaves must anticommute - that is what makes them
+    Majorana operators - which holds exactly when the node reached by a prefix of the path is the same for equal prefixes and different for different ones,
+    level by level in the range reserved for that level."""
+    from ..consteval import Raised, Undecidable
+    from ..rules.circuitsem import make_folder
+    rule = "K9.jkmn-tree"
+    JK = "tangelo/toolboxes/qubit_mappings/jkmn.py"
+    f = idx.function(f"{JK}::_jkmn_list")
+    for h in (1, 2, 3):
+        fo = make_folder(idx, JK)
+        fo.real_arrays = True
+        try:
+            leaves = fo.run_function(f.node, {"h": h})
+        except (Undecidable, Raised) as e:
+            raise AnalysisError(f"_jkmn_list({h}) not foldable: {type(e).__name__} {e}")
+        bad = []
+        if len(leaves) != 3 ** h or any(len(p_) != h for p_ in leaves):
+            bad.append(f"{len(leaves)} leaves with path lengths {sorted({len(p_) for p_ in leaves})}")
+        else:
+            by_prefix = {}
+            for i_, path in enumerate(leaves):
+                digits = []
+                for d_, (node, letter) in enumerate(path):
+                    lo, hi = (3 ** d_ - 1) // 2, (3 ** (d_ + 1) - 1) // 2
+                    if not (lo <= int(node) < hi):
+                        bad.append(f"leaf {i_}: node {node} at level {d_} lies outside {lo}..{hi - 1}")
+                    prev = by_prefix.setdefault((d_, tuple(digits)), int(node))
+                    if prev != int(node):
+                        bad.append(f"leaf {i_}: prefix {digits} reaches node {node}, another leaf with the same prefix reaches {prev}")
+                    digits.append(letter)
+            for d_ in range(h):
+                nodes = [v for (dd, _), v in by_prefix.items() if dd == d_]
+                if len(set(nodes)) != len(nodes):
+                    bad.append(f"level {d_}: {len(nodes)} different prefixes share {len(set(nodes))} nodes")
+            commuting = 0
+            for a_ in range(len(leaves)):
+                for b_ in range(a_ + 1, len(leaves)):
+                    da, db = {}, {}
+                    for q, l in leaves[a_]:
+                        da[int(q)] = da.get(int(q), "") + l
+                    for q, l in leaves[b_]:
+                        db[int(q)] = db.get(int(q), "") + l
+                    if any(len(v) != 1 for v in list(da.values()) + list(db.values())) or sum(1 for q in set(da) & set(db) if da[q] != db[q]) % 2 == 0:
+                        commuting += 1
+            if commuting:
+                bad.append(f"{commuting} pairs of leaves do not give anticommuting Pauli strings")
+        rep.decide(not bad, rule, f, f.node, text=f"ternary tree of height {h}: {3 ** h} leaves, {(3 ** h - 1) // 2} nodes",
+                   what="equal path prefixes reach the same node, different prefixes different nodes of their level, so the Pauli strings of any two leaves anticommute "
+                        "(the Majorana operators of the encoding)", reason="; ".join(bad[:3]))
 
 
 def check_dispatch(idx: Index, rep: Report):
